@@ -155,7 +155,8 @@ class EnumAnalysis:
         self.args = fn.params[1]
         self.paths = []     # (conds, contributions, return node)
         self.problems = []
-        self._walk(fn.node.body, {}, [], )
+        import copy
+        self._walk(_append_loops_to_comprehensions(copy.deepcopy(fn.node.body)), {}, [], )
 
     # ---- column sets -------------------------------------------------------
     def colset(self, e, env):
@@ -279,6 +280,17 @@ class EnumAnalysis:
                     return [Contribution(kind, cs, 2, None, ast.unparse(e), e)]
         if isinstance(e, ast.ListComp) and len(e.generators) == 1:
             g = e.generators[0]
+            # the same with the pair unpacked: [(a, b) for a, b in ENUM if a == label or b == label]
+            if isinstance(e.elt, ast.Tuple) and isinstance(g.target, ast.Tuple) and len(e.elt.elts) == 2 and len(g.target.elts) == 2 and all(isinstance(x, ast.Name) for x in list(e.elt.elts) + list(g.target.elts)) \
+                    and [x.id for x in e.elt.elts] == [x.id for x in g.target.elts]:
+                inner = self.contributions(g.iter, env)
+                if len(inner) == 1 and inner[0].kind != 'unknown':
+                    flt = None
+                    if g.ifs:
+                        tv = tuple(x.id for x in g.target.elts)
+                        flt = 'label-in-pair' if len(g.ifs) == 1 and self._is_label_in(g.ifs[0], tv) else 'other:' + ' and '.join(ast.unparse(i) for i in g.ifs)
+                    c = inner[0]
+                    return [Contribution(c.kind, c.colset, c.r, flt, ast.unparse(e), e)]
             # filter of an enumerator: [x for x in ENUM if <label in x>]
             if isinstance(e.elt, ast.Name) and isinstance(g.target, ast.Name) and e.elt.id == g.target.id:
                 inner = self.contributions(g.iter, env)
@@ -306,6 +318,21 @@ class EnumAnalysis:
         return [Contribution('unknown', None, None, None, ast.unparse(e)[:120], e)]
 
     def _is_label_in(self, t, var):
+        # the pair may be unpacked: `first == label or second == label` over the two targets is `label in (first, second)`
+        if isinstance(var, tuple):
+            if isinstance(t, ast.BoolOp) and isinstance(t.op, ast.Or) and len(t.values) == 2:
+                hit = set()
+                for v in t.values:
+                    if isinstance(v, ast.Compare) and len(v.ops) == 1 and isinstance(v.ops[0], ast.Eq):
+                        a, b = v.left, v.comparators[0]
+                        if self._is_label(b) and isinstance(a, ast.Name) and a.id in var:
+                            hit.add(a.id)
+                        elif self._is_label(a) and isinstance(b, ast.Name) and b.id in var:
+                            hit.add(b.id)
+                return hit == set(var)
+            if isinstance(t, ast.Compare) and len(t.ops) == 1 and isinstance(t.ops[0], ast.In) and self._is_label(t.left) and isinstance(t.comparators[0], (ast.Tuple, ast.List)):
+                return [x.id if isinstance(x, ast.Name) else None for x in t.comparators[0].elts] in (list(var), list(reversed(var)))
+            return False
         return (isinstance(t, ast.Compare) and len(t.ops) == 1 and isinstance(t.ops[0], ast.In) and self._is_label(t.left)
                 and isinstance(t.comparators[0], ast.Name) and t.comparators[0].id == var)
 
@@ -360,6 +387,59 @@ class EnumAnalysis:
                 continue
             self.problems.append((s, f'unrecognised statement in the enumeration: {ast.unparse(s)[:100]}'))
         self.paths.append((conds, [], None))
+
+
+def _append_loops_to_comprehensions(body):
+    """`acc = []` ... `for a in A: [for b in B:] [if c:] acc.append(e)`  ->  `acc = [e for a in A for b in B if c]` (or `acc += [...]` when acc is
+    not empty any more): the loop form a generator takes when it is materialised.  Applied recursively to nested blocks."""
+    def comp_of(loop, acc):
+        gens = []
+        cur = loop
+        while True:
+            if isinstance(cur, ast.For) and not cur.orelse and len(cur.body) == 1:
+                gens.append(ast.comprehension(target=cur.target, iter=cur.iter, ifs=[], is_async=0))
+                cur = cur.body[0]
+                continue
+            if isinstance(cur, ast.If) and not cur.orelse and len(cur.body) == 1 and gens:
+                gens[-1].ifs.append(cur.test)
+                cur = cur.body[0]
+                continue
+            break
+        if gens and isinstance(cur, ast.Expr) and isinstance(cur.value, ast.Call) and isinstance(cur.value.func, ast.Attribute) and cur.value.func.attr == 'append' \
+                and isinstance(cur.value.func.value, ast.Name) and cur.value.func.value.id == acc and len(cur.value.args) == 1:
+            return ast.ListComp(elt=cur.value.args[0], generators=gens)
+        return None
+    out = []
+    empty = set()         # names bound to [] and not yet filled
+    for st in body:
+        for f_ in ('body', 'orelse'):
+            blk = getattr(st, f_, None)
+            if isinstance(blk, list) and isinstance(st, (ast.If, ast.With, ast.Try)):
+                setattr(st, f_, _append_loops_to_comprehensions(blk))
+        if isinstance(st, ast.Assign) and len(st.targets) == 1 and isinstance(st.targets[0], ast.Name) and isinstance(st.value, ast.List) and not st.value.elts:
+            empty.add(st.targets[0].id)
+            out.append(st)
+            continue
+        if isinstance(st, ast.For):
+            accs = {c.func.value.id for c in ast.walk(st) if isinstance(c, ast.Call) and isinstance(c.func, ast.Attribute) and c.func.attr == 'append' and isinstance(c.func.value, ast.Name)}
+            if len(accs) == 1:
+                acc = next(iter(accs))
+                lc = comp_of(st, acc)
+                if lc is not None:
+                    if acc in empty:
+                        new = ast.Assign(targets=[ast.Name(acc, ast.Store())], value=lc)
+                        # the empty binding before it is superseded
+                        out = [o for o in out if not (isinstance(o, ast.Assign) and len(o.targets) == 1 and isinstance(o.targets[0], ast.Name) and o.targets[0].id == acc and isinstance(o.value, ast.List) and not o.value.elts)]
+                        empty.discard(acc)
+                    else:
+                        new = ast.AugAssign(target=ast.Name(acc, ast.Store()), op=ast.Add(), value=lc)
+                    out.append(ast.fix_missing_locations(ast.copy_location(new, st)))
+                    continue
+        for x in ast.walk(st):
+            if isinstance(x, ast.Name) and x.id in empty and not (isinstance(st, ast.Assign) and st.targets[0] is x):
+                empty.discard(x.id)
+        out.append(st)
+    return out
 
 
 def enumeration(repo):
